@@ -438,7 +438,8 @@ def autoshape_props():
 
 
 def text_frame_props():
-    m = lambda n: Prop("TextFrame", n, length_vals(-INT32_HI - 1, INT32_HI, (45720, 914400)) + [Val("zero", {"emu": 0}), Val("1q", {"emu": 1})])
+    m = lambda n: Prop("TextFrame", n, length_vals(-INT32_HI - 1, INT32_HI, (45720, 914400)) + [Val("zero", {"emu": 0}), Val("1q", {"emu": 1}),
+                                                                                              Val("default-0.1in", {"emu": 91440})])
     return [
         m("margin_left"), m("margin_right"), m("margin_top"), m("margin_bottom"),
         Prop("TextFrame", "word_wrap", tri_bool(), none_reading=None, none_removes=True),
@@ -676,6 +677,8 @@ def build_kinds():
                                ("first_row", "first_col", "last_row", "last_col", "horz_banding", "vert_banding")], corpus=True))
     cm = lambda n, d: Prop("_Cell", n, [Val("zero", {"emu": 0}), Val("1q", {"emu": 1}), Val("interior-a", {"emu": 45721}, pair=True),
                                         Val("interior-b", {"emu": 914400}, pair=True), Val("schema-upper", {"emu": INT32_HI}),
+                                        # the documented defaults of this margin and of its siblings are ordinary values too
+                                        Val("default-0.1in", {"emu": 91440}), Val("default-0.05in", {"emu": 45720}),
                                         Val("schema-upper+1q", {"emu": INT32_HI + 1}, "either"),
                                         Val("None", None, "none", pair=True), Val("wrong-type:str", "abc", "invalid"), WT_LIST,
                                         Val("wrong-type:float", 1.5, "either")],
